@@ -17,6 +17,8 @@ def run(repo, rep):
     rep.assume('A1: text fields are ASCII (len(x.encode()) == len(x))')
     rep.assume('padding character of AE titles is outside the property\'s three enumerated aspects (struct pads 16s with NUL)')
     rep.rule('C02.L1', 'type code of each class = standard PDU / item type', 23)
+    rep.rule('C02.L6', 'a conformant value is never refused: no guard in a constructor (which the decoder uses) or an encoder rejects '
+             'a value the field can carry -- folded at 0 and at the largest value of the field (same analysis as C01.O12)', 23)
     rep.rule('C02.L2', 'field order, width, big-endian byte order and carried attribute per position', 23)
     rep.rule('C02.L3', 'each length field equals the number of bytes the standard says it governs; fixed lengths; '
              'total_length() = bytes emitted', 23)
